@@ -66,9 +66,25 @@ theorem fchan_fair_run_terminates (T : Table) (hT : TimerOk T) (cap : Nat) (hcap
     ftrace_reads T cap pol fuel _ _⟩
   rw [h1, ← h2, hc, hp, List.append_nil, List.append_nil]
 
-/-- … for the code as it is: the parser's table (= the regenerated one by `C01`; `tableBound` = 9), the
+/-- More fuel than the bound changes nothing (the scheduler has stopped by itself): end state and
+    trace are those of `fuel = stepBound …`. -/
+theorem fchan_fair_run_fuel_irrelevant (T : Table) (hT : TimerOk T) (cap : Nat) (pol : Policy) (rs : List Nat)
+    (fuel : Nat) (hf : stepBound (tableBound T) rs.length ≤ fuel) :
+    fdrive T cap pol fuel FCSys.init (inputScript rs) =
+      fdrive T cap pol (stepBound (tableBound T) rs.length) FCSys.init (inputScript rs) ∧
+    ftrace T cap pol fuel FCSys.init (inputScript rs) =
+      ftrace T cap pol (stepBound (tableBound T) rs.length) FCSys.init (inputScript rs) := by
+  have hmu := mu_init (tableBound T) rs
+  have := fdrive_stable T hT (tableBound T) (step_out_le T) cap pol (stepBound (tableBound T) rs.length) FCSys.init
+    (inputScript rs) (CI_init cap) (by omega) (fuel - stepBound (tableBound T) rs.length)
+  rwa [Nat.add_sub_cancel' hf] at this
+
+/-- … **for the code as it is**: the parser's table (= the regenerated one by `C01`; `tableBound` = 9), the
     regenerated channel capacity `chanCap` (2): every finite input, every policy, at most
-    `42·(|rs| + 1) + 10` transitions. -/
+    `42·(|rs| + 1) + 10` transitions.  Here moreover **every input of the script is read** (no rune
+    ends the loop: the reads of the trace are exactly `rs` then `eof`), and what the consumer has
+    received is what the reference machine of `Spec/VT500.lean` prescribes for some schedule of atomic
+    life-cycle labels (`fchan_refines_spec`). -/
 theorem fchan_fair_run_terminates_code (pol : Policy) (rs : List Nat) (fuel : Nat)
     (hf : 42 * (rs.length + 1) + 10 ≤ fuel) :
     let s := fdrive handTable Gen.ParserTable.chanCap pol fuel FCSys.init (inputScript rs)
@@ -78,11 +94,22 @@ theorem fchan_fair_run_terminates_code (pol : Policy) (rs : List Nat) (fuel : Na
     (∃ pre, s.recvd = pre ++ [.eof] ∧ Seq.eof ∉ pre) ∧
     FCSys.run handTable Gen.ParserTable.chanCap FCSys.init tr = some s ∧ tr.length < 42 * (rs.length + 1) + 10 ∧
     FSys.run handTable FSys.init (stmtLabels tr) = some (s.f, s.recvd) ∧
-    readsOf tr ++ frest handTable Gen.ParserTable.chanCap pol fuel FCSys.init (inputScript rs) = inputScript rs := by
+    readsOf tr = inputScript rs ∧
+    (∃ als : List Label,
+      VaxisModel.Lemmas.ParserRefine.noErr s.recvd = (VaxisModel.Lemmas.ParserRunSpec.specLabels {} als).2) := by
+  intro s tr
   have h := fchan_fair_run_terminates handTable handTable_timerOk Gen.ParserTable.chanCap (by decide) pol rs fuel
     (by rw [hand_tableBound]; simpa [stepBound] using hf)
   rw [hand_tableBound] at h
-  simpa [stepBound] using h
+  obtain ⟨h1, h2, h3, h4, h5, h6⟩ := h
+  have hR := fdrive_reads_all Gen.ParserTable.chanCap pol fuel FCSys.init (inputScript rs) ⟨[], [], rfl⟩ NS_init
+    (R_init rs)
+  have hrest := hR.pe (by rw [h1.1]; rfl)
+  rw [hrest, List.append_nil] at h6
+  obtain ⟨als, ha, _⟩ := VaxisModel.Props.C08FineChan.fchan_refines_spec Gen.ParserTable.chanCap tr s h3
+    (Or.inr (Or.inr h1.1))
+  rw [h1.2.2.1, List.append_nil] at ha
+  exact ⟨h1, h2, h3, by simpa [stepBound] using h4, h5, h6, als, ha⟩
 
 -- non-vacuity (`fchan_fair_run_terminates_code`, fuel = the bound for 3 runes = 178): ESC [ A, with a long
 -- pause in front of every read (`expireInRead`): the timer of the ESC expires while the main goroutine is
@@ -191,6 +218,25 @@ theorem fchan_close_then_read_stops_explicit (T : Table) (hT : TimerOk T) (cap :
   obtain ⟨s1, h1, _, h2, h3⟩ := fchan_close_then_read_stops T hT cap hcap _ _ hr0 hpc rfl i pol fuel hf
   refine ⟨s1, ?_, h2, h3⟩
   simp only [FCSys.run, hstep0, h1]
+
+/-- … for the code as it is (the parser's table, `chanCap` = 2): after `Close()` and the return of the
+    pending read, at most `51 + 8·|cbs| + |chan|` transitions. -/
+theorem fchan_close_then_read_stops_code (ls0 : List FCLabel) (s : FCSys)
+    (hr : FCSys.run handTable Gen.ParserTable.chanCap FCSys.init ls0 = some s) (hpc : s.f.mpc = .inRead)
+    (i : Inp) (pol : Policy) (fuel : Nat) (hf : 51 + 8 * s.f.cbs.length + s.chan.length ≤ fuel) :
+    ∃ s1, FCSys.run handTable Gen.ParserTable.chanCap s [.stmt .closeSig, .stmt (.readRet i)] = some s1 ∧
+      (let e := fdrive handTable Gen.ParserTable.chanCap pol fuel s1 []
+       let tr := ftrace handTable Gen.ParserTable.chanCap pol fuel s1 []
+       (e.f.mpc = .done ∧ e.f.chanClosed = true ∧ e.chan = [] ∧ e.pend = [] ∧ (∀ c ∈ e.f.cbs, c.2 = .gone) ∧
+         e.f.mutex = none ∧ e.f.armed = none) ∧
+       (∃ pre, e.recvd = pre ++ [.eof] ∧ Seq.eof ∉ pre) ∧
+       FCSys.run handTable Gen.ParserTable.chanCap s1 tr = some e ∧ tr.length < 51 + 8 * s.f.cbs.length + s.chan.length ∧
+       readsOf tr = []) ∧
+      (∀ ls s', FCSys.run handTable Gen.ParserTable.chanCap s1 ls = some s' → s'.f.mpc ≠ .inRead) := by
+  have h := fchan_close_then_read_stops_explicit handTable handTable_timerOk Gen.ParserTable.chanCap (by decide) ls0 s hr
+    hpc i pol fuel (by rw [hand_tableBound]; simp only [closeBound]; omega)
+  rw [hand_tableBound] at h
+  simpa [closeBound] using h
 
 -- non-vacuity (`fchan_close_then_read_stops_explicit`): a lone ESC, the timer expires while the main goroutine
 -- is blocked in the next read, the callback locks and passes its check — it is in flight, holding the
